@@ -340,9 +340,109 @@ func TestC14(t *testing.T) {
 		}
 		synctest.Test(t, func(t *testing.T) { c14RunE2E(t, run, sc) })
 	}
+	// ---- part 2b: an upload that a drain overtakes ----
+	k := 0
+	for _, cmd := range []string{"stop", "pause-resume", "redeploy"} {
+		for _, first := range []int{0, 32, 64} {
+			for _, total := range []int{65, 4000} {
+				desc := map[string]any{"part": "upload-overtaken-by-drain", "cmd": cmd, "bytes_before_the_drain": first, "body": total, "buffer_memory": 64}
+				k++
+				if !run.Mine(idx+n+k, desc) {
+					continue
+				}
+				synctest.Test(t, func(t *testing.T) { c14Drained(t, run, desc, cmd, first, total) })
+			}
+		}
+	}
 	if desc := map[string]any{"part": "real-binary-dropped-connection"}; run.Mine(1<<20, desc) {
 		c14RealDrop(t, run, desc)
 	}
+}
+
+// c14Drained: "every way a request can end" includes being overtaken by a drain. A client uploads
+// to a service with request buffering (buffer-memory 64): it has sent the first part of its body
+// (at most buffer-memory) when the service is stopped / paused / redeployed with a drain timeout of
+// 10ms, and sends the rest a second later. Whatever the client is answered: a target that is
+// contacted sees exactly the body, and no spill file is left once the request has ended.
+func c14Drained(t *testing.T, run *Run, desc any, cmd string, first, total int) {
+	dir := t.TempDir()
+	old := os.Getenv("TMPDIR")
+	os.Setenv("TMPDIR", dir)
+	defer os.Setenv("TMPDIR", old)
+	w := NewWorld(t, WorldOpt{})
+	defer w.Close()
+	w.MaxClientLife = 30 * time.Second
+	run.Eval()
+	fail := func(sig, format string, a ...any) {
+		run.Violate("e2e:"+sig, fmt.Sprintf(format, a...), desc, func() []string { return w.Trace(60) })
+	}
+	body := c13Bytes("c14drain", first*7+total, total)
+	var mu sync.Mutex
+	var got []*RawMsg
+	serve := func(ft *FakeTarget, c net.Conn) {
+		br := bufio.NewReader(c)
+		for {
+			m, err := readRawRequest(br)
+			if err != nil {
+				return
+			}
+			mu.Lock()
+			got = append(got, m)
+			mu.Unlock()
+			if !w.sleep(OffTarget) {
+				return
+			}
+			fmt.Fprintf(c, "HTTP/1.1 200 OK\r\nContent-Length: 2\r\n\r\nok")
+		}
+	}
+	w.AddTarget("up1:80", nil).RawServe = serve
+	w.AddTarget("up2:80", nil).RawServe = serve
+	to := DefTO
+	to.BufferRequests, to.MaxMemoryBufferSize = true, 64
+	so := server.ServiceOptions{Hosts: []string{"up.example"}}
+	if c := w.Deploy("up", []string{"up1:80"}, so, to, 5*time.Second, time.Second); c.Err != "" {
+		run.Inconclusive("setup deploy: %s", c.Err)
+		return
+	}
+	conn, err := w.connect(false, "up.example")
+	if err != nil {
+		run.Inconclusive("connect: %v", err)
+		return
+	}
+	defer conn.Close()
+	fmt.Fprintf(conn, "POST /upload HTTP/1.1\r\nHost: up.example\r\nContent-Length: %d\r\nConnection: close\r\n\r\n", total)
+	conn.Write(body[:first])
+	time.Sleep(time.Second)
+	switch cmd {
+	case "stop":
+		w.Stop("up", 10*time.Millisecond, "closed")
+	case "pause-resume":
+		w.Pause("up", 10*time.Millisecond, time.Minute)
+		w.Resume("up")
+	case "redeploy":
+		w.Deploy("up", []string{"up2:80"}, so, to, 5*time.Second, 10*time.Millisecond)
+	}
+	time.Sleep(time.Second)
+	conn.Write(body[first:])
+	status := -1
+	if resp, rerr := readRawResponse(bufio.NewReader(conn), "POST"); rerr == nil {
+		status = resp.Status()
+	}
+	conn.Close()
+	time.Sleep(5 * time.Second) // everything about this request has ended by now
+	mu.Lock()
+	defer mu.Unlock()
+	if n, _ := c14Spills(dir); n != 0 {
+		fail("spill-left-behind:upload-overtaken-by-drain", "%d spill files left in TMPDIR after an upload that a %s overtook had ended (client saw status %d; %d of %d body bytes had been sent when the drain began, buffer-memory 64)", n, cmd, status, first, total)
+		return
+	}
+	for _, m := range got {
+		if strings.HasPrefix(m.Line, "POST ") && !bytes.Equal(m.Body, body) {
+			fail("request-body-differs:upload-overtaken-by-drain", "the target received %d body bytes that are not the %d the client sent", len(m.Body), total)
+			return
+		}
+	}
+	run.Class(fmt.Sprintf("e2e|upload-overtaken|%s|first=%d|total=%d|status=%d|delivered=%d", cmd, first, total, status, len(got)))
 }
 
 // c14RealDrop: the built binary (compiled with the repository's own Go toolchain - the standard
